@@ -139,6 +139,16 @@ impl PacketReceiver {
         self.base_id
     }
 
+    #[cfg(feature = "verif")]
+    pub fn verif_alloc(&self) -> usize {
+        self.assembly_window.verif_alloc()
+    }
+
+    #[cfg(feature = "verif")]
+    pub fn verif_dud_count(&self) -> u64 {
+        self.assembly_window.verif_dud_count()
+    }
+
     pub fn handle_datagram(&mut self, datagram: frame::Datagram) {
         let base_id = self.base_id;
         let channel_idx = datagram.channel_id as usize;
@@ -252,6 +262,8 @@ impl PacketReceiver {
 
         let mut id = self.base_id;
         while id != new_base_id {
+            #[cfg(feature = "verif")]
+            crate::verif::tick();
             let window_idx = window_index!(self, id);
 
             let flag_bit = 1 << (window_idx % 64);
@@ -264,6 +276,8 @@ impl PacketReceiver {
 
         let mut id = self.base_id;
         while id != new_base_id {
+            #[cfg(feature = "verif")]
+            crate::verif::tick();
             let window_idx = window_index!(self, id);
 
             self.assembly_window.clear(window_idx);
@@ -273,6 +287,8 @@ impl PacketReceiver {
 
         let mut id = self.base_id;
         while id != new_base_id {
+            #[cfg(feature = "verif")]
+            crate::verif::tick();
             id = packet_id::add(id, 1);
 
             self.try_unset_channel_base_id(id);
@@ -299,6 +315,8 @@ impl PacketReceiver {
         let mut sequence_id = base_id;
 
         while sequence_id != end_id {
+            #[cfg(feature = "verif")]
+            crate::verif::tick();
             if self.channel_ready_flags == 0 {
                 //println!("channel_ready_flags == 0, breaking");
                 break;
@@ -369,6 +387,8 @@ impl PacketReceiver {
             let mut sequence_id = base_id;
 
             while sequence_id != end_id {
+                #[cfg(feature = "verif")]
+                crate::verif::tick();
                 let window_idx = window_index!(self, sequence_id);
 
                 let flag_bit = 1 << (window_idx % 64);
@@ -418,6 +438,8 @@ impl PacketReceiver {
         let mut sequence_id = base_id;
 
         while sequence_id != sender_next_id {
+            #[cfg(feature = "verif")]
+            crate::verif::tick();
             let window_idx = window_index!(self, sequence_id);
 
             let flag_bit = 1 << (window_idx % 64);
